@@ -110,8 +110,12 @@ class Report:
         counts: Dict[str, int] = {}
         for i in self.instances:
             counts[i.rule] = counts.get(i.rule, 0) + 1
+        failing_rules = {i.rule for i in self.instances if not i.ok}
+        any_failing = bool(failing_rules)
         for r, m in self.minima.items():
-            if counts.get(r, 0) < m:
+            # a rule (or an earlier rule whose finding cut the analysis short) that found something is
+            # not vacuous; the guard is about silent passes
+            if counts.get(r, 0) < m and not any_failing:
                 raise AnalysisError(
                     f"rule {r} matched {counts.get(r, 0)} instance(s), fewer than the {m} confirmed "
                     f"on the pinned tree: the rule no longer sees its anchors (vacuous pass refused)"
